@@ -220,6 +220,11 @@ def addr(n):
 
 # ---------------------------------------------------------------------------
 WORKBOOKS = {
+    # C09: C1 captures a #VALUE! (text + number) before it reads B1
+    'capture': dict(
+        inputs={'A1': 'a', 'A2': 1},
+        formulas={'B1': ('Plus', ['A2'], 1), 'C1': ('Plus', ['A1', 'A2', 'B1'], 0),
+                  'D1': ('Plus', ['A2'], 5), 'E1': ('Cat', 'C1')}),
     # DESIGN C08: x uses a member of the range directly, s the range
     'trimex': dict(
         inputs={'A1': 1, 'B1': 2, 'A2': 5},
